@@ -125,6 +125,8 @@ type runner struct {
 	panics  map[string]*PanicRec
 	nonterm map[string]*NontermRec
 	curSys  string
+	// retFamilies counts the distinct return classes per driver.
+	retFamilies map[string]int
 }
 
 func newRunner(logPath string) *runner {
@@ -139,6 +141,8 @@ func newRunner(logPath string) *runner {
 		seen:    map[uint64]struct{}{},
 		panics:  map[string]*PanicRec{},
 		nonterm: map[string]*NontermRec{},
+
+		retFamilies: map[string]int{},
 	}
 }
 
@@ -173,7 +177,17 @@ func (x *runner) call(d *driver, sys, enc string) {
 	if el := time.Since(t0); el > 20*time.Millisecond {
 		x.slow(SlowRec{Entry: d.name, Sys: sys, Enc: clip(enc, 120), Bytes: len(in), Ms: el.Milliseconds(), Ret: ret})
 	}
-	x.sum.Ret[d.name+"|"+ret]++
+	key := d.name + "|" + ret
+	if _, known := x.sum.Ret[key]; !known {
+		// Error texts echo input; keep the evidence readable by lumping
+		// whatever comes after the first 30 families of a driver.
+		if x.retFamilies[d.name] >= 30 && strings.HasPrefix(ret, "err:") {
+			key = d.name + "|err:(other families)"
+		} else {
+			x.retFamilies[d.name]++
+		}
+	}
+	x.sum.Ret[key]++
 	if nontrivial(ret) {
 		h := fnv.New64a()
 		h.Write([]byte(d.name))
@@ -253,8 +267,8 @@ func (x *runner) batch(d *driver, sys, kind string, seed int64, n int) {
 // ---- classification of returns ------------------------------------------
 
 var (
-	reQuoted = regexp.MustCompile("`[^`]*`|\"(?:[^\"\\\\]|\\\\.)*\"|'[^']*'")
-	reDigits = regexp.MustCompile(`[0-9]+`)
+	reQuoted  = regexp.MustCompile("`[^`]*`|\"(?:[^\"\\\\]|\\\\.)*\"|'[^']*'")
+	reDigits  = regexp.MustCompile(`[0-9]+`)
 	reNonWord = regexp.MustCompile(`[^A-Za-z]+`)
 )
 
